@@ -11,6 +11,9 @@
 //!   flist <form> <word>    every collection filter with every keyword option on one input list; the
 //!                          laws are evaluated here, directly on the outputs   → `ok <n>` or `FAIL …`
 //!   batch/slicef <len> <count> <fill>   run lengths of `batch` / `slice`   → `ok:l1,l2,…`, `err:Kind`, `panic`
+//!   lk <backing> <n> <key enc> <probe enc>   a map of `n` entries holding `key` (→ 777) probed with `probe`
+//!                          through EVERY lookup entry point (see `LK_ENTRIES`)   → `<k==p> <flag per entry>`
+//!                          (`1` found, `0` not found, `-` entry point not applicable, `e` error, `P` panic)
 //!
 //! Value encoding (no blanks): `u` undefined, `n` none, `t`/`f`, `U64.<dec>`, `I64.<dec>`, `U128.<dec>`,
 //! `I128.<dec>`, `F.<16 hex digits of the bit pattern>`, `Ss.`/`Sn.`/`Sf.<hex utf8>` (small / Arc / safe
@@ -944,6 +947,201 @@ fn run_runs(env: &Environment<'static>, which: &str, len: usize, count: &str, fi
     }
 }
 
+// ------------------------------------------------------------------------------------------ lookups
+
+/// every way to ask a map for a key.  All of them must answer "some key of the map is == probe".
+const LK_ENTRIES: [&str; 17] = [
+    "get_item", "subscript", "in", "iter-keys", "items", "dictsort", "get_attr", "dot", "get_path", "map-attr",
+    "selectattr", "rejectattr", "groupby", "sort-attr", "unique-attr", "get_item_by_index", "context-var",
+];
+
+#[derive(Debug)]
+struct StrObj(Vec<(String, Value)>);
+impl Object for StrObj {
+    fn repr(self: &Arc<Self>) -> ObjectRepr {
+        ObjectRepr::Map
+    }
+    // a strict user object: only string values are keys; `get_value_by_str` is the trait's default
+    fn get_value(self: &Arc<Self>, key: &Value) -> Option<Value> {
+        if key.kind() != minijinja::value::ValueKind::String {
+            return None;
+        }
+        let k = key.as_str()?;
+        self.0.iter().find(|(n, _)| n == k).map(|(_, v)| v.clone())
+    }
+    fn enumerate(self: &Arc<Self>) -> Enumerator {
+        Enumerator::Values(self.0.iter().map(|(n, _)| Value::from(n.as_str())).collect())
+    }
+}
+
+fn lk_keys() -> Vec<S> {
+    let s23 = "abcdefghijklmnopqrstuvw";
+    vec![
+        s0("abc"), S::Str("abc".into(), 1), S::Str("abc".into(), 2), S::Bytes(b"abc".to_vec()), s0("a b"), s0("1"),
+        S::Bytes(b"1".to_vec()), i(1), S::U64(1), fbits(1.0), S::Bool(true), S::None, s0(""), S::Bytes(vec![]),
+        s0("True"), S::Str(s23.into(), 0), S::Bytes(s23.as_bytes().to_vec()), S::Bytes(vec![0xff]), i(0), S::Bool(false),
+    ]
+}
+
+fn is_ident(s: &str) -> bool {
+    !s.is_empty()
+        && s.chars().all(|c| c.is_ascii_alphanumeric() || c == '_')
+        && !s.chars().next().unwrap().is_ascii_digit()
+        && !["true", "True", "false", "False", "none", "None", "in", "is", "not", "and", "or", "if", "else", "loop", "self"].contains(&s)
+}
+
+fn lk_map(backing: &str, n: usize, k: &Value, marker: Value) -> Option<Value> {
+    use std::collections::{BTreeMap, HashMap};
+    let fill = |i: usize| format!("~f{i}");
+    match backing {
+        "vm" => {
+            let mut ps = vec![(k.clone(), marker)];
+            ps.extend((1..n).map(|i| (Value::from(fill(i)), Value::from(i))));
+            Some(Value::from_pairs(ps))
+        }
+        "hm" => {
+            let mut m: HashMap<Value, Value> = HashMap::new();
+            m.insert(k.clone(), marker);
+            for i in 1..n {
+                m.insert(Value::from(fill(i)), Value::from(i));
+            }
+            Some(Value::from(m))
+        }
+        _ => {
+            if k.kind() != minijinja::value::ValueKind::String {
+                return None;
+            }
+            let ks = k.as_str()?.to_string();
+            match backing {
+                "bts" => {
+                    let mut m: BTreeMap<String, Value> = BTreeMap::new();
+                    m.insert(ks, marker);
+                    for i in 1..n {
+                        m.insert(fill(i), Value::from(i));
+                    }
+                    Some(Value::from(m))
+                }
+                "hms" => {
+                    let mut m: HashMap<String, Value> = HashMap::new();
+                    m.insert(ks, marker);
+                    for i in 1..n {
+                        m.insert(fill(i), Value::from(i));
+                    }
+                    Some(Value::from(m))
+                }
+                "arc" => {
+                    let mut m: BTreeMap<Arc<str>, Value> = BTreeMap::new();
+                    m.insert(Arc::from(ks.as_str()), marker);
+                    for i in 1..n {
+                        m.insert(Arc::from(fill(i).as_str()), Value::from(i));
+                    }
+                    Some(Value::from(m))
+                }
+                "obj" => {
+                    let mut v = vec![(ks, marker)];
+                    v.extend((1..n).map(|i| (fill(i), Value::from(i))));
+                    Some(Value::from_object(StrObj(v)))
+                }
+                "ser" => {
+                    let mut m: BTreeMap<String, i64> = BTreeMap::new();
+                    m.insert(ks, marker.as_i64().unwrap_or(777));
+                    for i in 1..n {
+                        m.insert(fill(i), i as i64);
+                    }
+                    Some(Value::from(minijinja::value::Serde(&m)))
+                }
+                _ => None,
+            }
+        }
+    }
+}
+
+fn flag(r: Result<Result<bool, ()>, String>) -> char {
+    match r {
+        Err(_) => 'P',
+        Ok(Err(())) => 'e',
+        Ok(Ok(true)) => '1',
+        Ok(Ok(false)) => '0',
+    }
+}
+
+fn render_flag(env: &Environment<'static>, src: &str, ctx: Value) -> char {
+    flag(guarded(|| match env.render_str(src, ctx) {
+        Ok(s) => Ok(s == "1"),
+        Err(_) => Err(()),
+    }))
+}
+
+fn run_lk(env: &Environment<'static>, backing: &str, n: usize, ks: &S, ps: &S) -> Option<String> {
+    let k = build(ks);
+    let p = build(ps);
+    let marker = Value::from(777i64);
+    let m = lk_map(backing, n, &k, marker.clone())?;
+    let expected = guarded(|| k == p).unwrap_or(false);
+    let is_marker = |v: &Value| v.as_i64() == Some(777);
+    let p_is_string = p.kind() == minijinja::value::ValueKind::String;
+    let pstr: Option<String> = if p_is_string { p.as_str().map(|x| x.to_string()) } else { None };
+    // dotted paths treat all-digit parts as indexes and split at dots: attribute names proper only
+    let attr_name: Option<String> = pstr.clone().filter(|t| t.parse::<usize>().is_err() && !t.contains('.') && !t.contains(','));
+    let mut out = String::new();
+    for entry in LK_ENTRIES {
+        let c = match entry {
+            "get_item" => flag(guarded(|| m.get_item(&p).map(|v| is_marker(&v)).map_err(|_| ()))),
+            "subscript" => render_flag(env, "{{ 1 if m[p] == 777 else 0 }}", context! { m => m.clone(), p => p.clone() }),
+            "in" => render_flag(env, "{{ 1 if p in m else 0 }}", context! { m => m.clone(), p => p.clone() }),
+            "iter-keys" => flag(guarded(|| m.try_iter().map(|mut it| it.any(|x| x == p)).map_err(|_| ()))),
+            "items" => render_flag(
+                env,
+                "{% set ns = namespace(f=0) %}{% for a, b in m|items %}{% if a == p and b == 777 %}{% set ns.f = 1 %}{% endif %}{% endfor %}{{ ns.f }}",
+                context! { m => m.clone(), p => p.clone() },
+            ),
+            "dictsort" => render_flag(
+                env,
+                "{% set ns = namespace(f=0) %}{% for a, b in m|dictsort %}{% if a == p and b == 777 %}{% set ns.f = 1 %}{% endif %}{% endfor %}{{ ns.f }}",
+                context! { m => m.clone(), p => p.clone() },
+            ),
+            "get_attr" => match &pstr {
+                Some(t) => flag(guarded(|| m.get_attr(t).map(|v| is_marker(&v)).map_err(|_| ()))),
+                None => '-',
+            },
+            "dot" => match &pstr {
+                Some(t) if is_ident(t) => render_flag(env, &format!("{{{{ 1 if m.{t} == 777 else 0 }}}}"), context! { m => m.clone() }),
+                _ => '-',
+            },
+            "context-var" => match &pstr {
+                // the map itself as the render context: a bare variable is an attribute lookup on it
+                Some(t) if is_ident(t) && t != "m" && t != "p" => render_flag(env, &format!("{{{{ 1 if {t} == 777 else 0 }}}}"), m.clone()),
+                _ => '-',
+            },
+            "get_item_by_index" => match p.as_usize() {
+                Some(ix) if p.is_integer() && ix < 100 => flag(guarded(|| m.get_item_by_index(ix).map(|v| is_marker(&v)).map_err(|_| ()))),
+                _ => '-',
+            },
+            _ => match &attr_name {
+                None => '-',
+                Some(t) => {
+                    let ctx = context! { m => m.clone(), a => t.clone(),
+                        other => Value::from_pairs([(Value::from(t.as_str()), Value::from(500i64))]) };
+                    match entry {
+                        "get_path" => render_flag(env, "{{ 1 if ([m]|map(attribute=a)|first) == 777 else 0 }}", ctx),
+                        "map-attr" => render_flag(env, "{{ 1 if ([m]|map(attribute=a, default=0)|first) == 777 else 0 }}", ctx),
+                        "selectattr" => render_flag(env, "{{ 1 if ([m]|selectattr(a)|list|length) == 1 else 0 }}", ctx),
+                        "rejectattr" => render_flag(env, "{{ 1 if ([m]|rejectattr(a)|list|length) == 0 else 0 }}", ctx),
+                        "groupby" => render_flag(env, "{{ 1 if ([m]|groupby(a, default=0)|first|first) == 777 else 0 }}", ctx),
+                        // `other` really has the attribute (500): `m` sorts after it iff it has it too (777), before it if undefined
+                        "sort-attr" => render_flag(env, "{{ 1 if ([m, other]|sort(attribute=a)|last) == m else 0 }}", ctx),
+                        // two copies of `m` and `other`: with the attribute there are two key classes, else `m` is undefined
+                        "unique-attr" => render_flag(env, "{{ 1 if ([m, other, m]|unique(attribute=a)|map(attribute=a)|list) == [777, 500] else 0 }}", ctx),
+                        _ => '?',
+                    }
+                }
+            },
+        };
+        out.push(c);
+    }
+    Some(format!("{} {}", expected as u8, out))
+}
+
 // ------------------------------------------------------------------------------------------ main
 
 fn words(max_len: usize, base: usize) -> Vec<String> {
@@ -1020,6 +1218,19 @@ fn main() {
                 writeln!(out, "flist wrap {w}\t{}", run_flist(&env, "wrap", &w)).unwrap();
                 writeln!(out, "flist plain {w}\t{}", run_flist(&env, "plain", &w)).unwrap();
             }
+            // every lookup entry point, around the small-map fast path threshold, for every backing map type
+            let lkk = lk_keys();
+            for backing in ["vm", "hm", "bts", "hms", "arc", "obj", "ser"] {
+                for n in [1usize, 2, 12, 13, 20] {
+                    for ks in &lkk {
+                        for ps in &lkk {
+                            if let Some(res) = run_lk(&env, backing, n, ks, ps) {
+                                writeln!(out, "lk {backing} {n} {} {}\t{res}", enc(ks), enc(ps)).unwrap();
+                            }
+                        }
+                    }
+                }
+            }
             // run lengths for the model
             let huge = ["9223372036854775807", "9223372036854775808", "18446744073709551615", "18446744073709551616", "768614336404564651"];
             let max_n = if thorough { 40 } else { 14 };
@@ -1051,6 +1262,11 @@ fn main() {
                 "valv" => run_val(&build(&dec(f[1]))),
                 "flist" => run_flist(&env, f[1], if f[2] == "-" { "" } else { f[2] }),
                 "batch" | "slicef" => run_runs(&env, f[0], f[1].parse().unwrap(), f[2], f[3] == "1"),
+                "lk" => format!(
+                    "{} [entries: {}]",
+                    run_lk(&env, f[1], f[2].parse().unwrap(), &dec(f[3]), &dec(f[4])).unwrap_or_else(|| "n/a".into()),
+                    LK_ENTRIES.join(",")
+                ),
                 _ => "bad-case".into(),
             };
             writeln!(out, "{case}\t{res}").unwrap();
